@@ -69,6 +69,9 @@ type ContractSet struct {
 	// package-level variables that are never reassigned after init and hold
 	// non-nil, pairwise distinct values (sentinel errors)
 	ConstGlobals map[string]bool
+	// protected ghost components change only through contracts that name them
+	// (a whole-heap havoc keeps them): assumption A-FSGHOST
+	Protected map[string]bool
 }
 
 type Macro struct {
@@ -79,7 +82,7 @@ type Macro struct {
 }
 
 func newContractSet() *ContractSet {
-	return &ContractSet{ByFunc: map[string]*Contract{}, Field: map[string]*Contract{}, Ghost: map[string]string{}, Macros: map[string]*Macro{}, ConstGlobals: map[string]bool{}}
+	return &ContractSet{ByFunc: map[string]*Contract{}, Field: map[string]*Contract{}, Ghost: map[string]string{}, Macros: map[string]*Macro{}, ConstGlobals: map[string]bool{}, Protected: map[string]bool{}}
 }
 
 var reKind = regexp.MustCompile(`^(requires|ensures|modifies|decreases|invariant|assume|let|cover|allocates|alloc|use|postuse)(\[[A-Za-z0-9, ]+\])?(\([A-Za-z0-9_.\-]+\))?\s+(.*)$`)
@@ -172,7 +175,12 @@ func (cs *ContractSet) ParseFile(path string, pkg string, external bool) error {
 			if i < 0 {
 				return fmt.Errorf("%s:%d: bad ghost decl", path, ln)
 			}
-			cs.Ghost[rest[:i]] = strings.TrimSpace(rest[i:])
+			so := strings.TrimSpace(rest[i:])
+			if strings.HasSuffix(so, " protected") {
+				so = strings.TrimSpace(strings.TrimSuffix(so, " protected"))
+				cs.Protected[rest[:i]] = true
+			}
+			cs.Ghost[rest[:i]] = so
 			continue
 		case strings.HasPrefix(line, "spec "):
 			sp := strings.TrimSpace(strings.TrimPrefix(line, "spec "))
